@@ -36,6 +36,7 @@ AccSets(r) ==
   \cup {{p} : p \in Mention(r)}
   \cup UNION {{A \ {p} : p \in A} : A \in Readings(r)}
   \cup UNION {{{p}, Priv \ {p}} : p \in IF Thorough /\ Mode # "all" THEN Priv ELSE Pick(r)}
+  \cup (IF r.sp = "xfer" THEN {Mention(r) \cup {5}, Priv \ {5}, Mention(r) \cup {0, 9}} ELSE {})
   \cup (IF r.t \in 348..353   \* account administration: the unused "change own password" privilege (18) alone and with the rest
           THEN {{18}, Mention(r) \cup {18}, (Priv \ Mention(r)) \ {18}, Defined \ Mention(r)} ELSE {})
   \cup (IF Thorough /\ Mode # "all"
